@@ -11,6 +11,10 @@ def sh(cmd, cwd=None, timeout=3600):
     return r.returncode, r.stdout
 def tests(cwd):
     rc, out = sh("cargo test --workspace --no-fail-fast --offline 2>&1", cwd)
+    # the demo may need the optional json feature: run it once more with the feature on
+    if os.path.exists(os.path.join(cwd, "interpreter/tests/seed_demo.rs")):
+        rc2, out2 = sh("cargo test -p cel-interpreter --features json --offline --test seed_demo 2>&1", cwd)
+        out += out2
     passed = sum(int(m) for m in re.findall(r"test result: \w+\. (\d+) passed", out))
     failed = sum(int(m) for m in re.findall(r"test result: \w+\. \d+ passed; (\d+) failed", out))
     demo_failed = "seed_demo" in out and bool(re.search(r"test .*\.\.\. FAILED", out))
